@@ -357,6 +357,12 @@ func (pc *packetConn) Read(b []byte) (n int, err error) {
 	// Although Close() also does this, we inform the server loop early about
 	// the closure to ensure that if any new packets are received from this
 	// connection in the meantime, a new handler will be started.
+	//
+	// The connection is marked as closed before the notification is sent: the
+	// notification may have to wait for room in closeCh, and the server loop -
+	// the only one who makes room there - must not wait for room in the queue
+	// of a connection that nobody reads from any more.
+	pc.closeOnce.Do(func() { close(pc.done) })
 	pc.closeCh <- pc
 	// Returning EOF here ensures that io.Copy() waiting on the downstream for
 	// reads will terminate.
